@@ -42,9 +42,15 @@ def _collapse_invariants(
     invariants = []  # type: List[Contract]
 
     # Add invariants of the bases
+    #
+    # The same invariant can arrive through several bases (*e.g.*, in a diamond); it is listed only once.
     for base in bases:
         if hasattr(base, invariants_dunder):
-            invariants.extend(getattr(base, invariants_dunder))
+            invariants.extend(
+                invariant
+                for invariant in getattr(base, invariants_dunder)
+                if not _is_among(invariant, invariants)
+            )
 
     # Add invariants in the current namespace
     #
@@ -86,6 +92,36 @@ def _is_group_among(group: List[Contract], groups: List[List[Contract]]) -> bool
         len(group) == len(another)
         and all(contract is other for contract, other in zip(group, another))
         for another in groups
+    )
+
+
+def _extend_with_contracts_of_base(
+    base_contract_checker: Callable[..., Any],
+    base_preconditions: List[List[Contract]],
+    base_snapshots: List[Snapshot],
+    base_postconditions: List[Contract],
+) -> None:
+    """
+    Add the contracts of a function of a base class to the contracts collected from the bases so far.
+
+    The same contracts can arrive through several bases (*e.g.*, in a diamond, where both bases inherit the function
+    from a common ancestor); they are collected only once, otherwise they would be evaluated repeatedly and
+    the snapshots would conflict with themselves.
+    """
+    base_preconditions.extend(
+        group
+        for group in base_contract_checker.__preconditions__  # type: ignore
+        if not _is_group_among(group, base_preconditions)
+    )
+    base_snapshots.extend(
+        snap
+        for snap in base_contract_checker.__postcondition_snapshots__  # type: ignore
+        if not _is_among(snap, base_snapshots)
+    )
+    base_postconditions.extend(
+        contract
+        for contract in base_contract_checker.__postconditions__  # type: ignore
+        if not _is_among(contract, base_postconditions)
     )
 
 
@@ -237,11 +273,12 @@ def _decorate_namespace_function(
 
                 # Ignore functions which don't have preconditions or postconditions
                 if base_contract_checker is not None:
-                    base_preconditions.extend(base_contract_checker.__preconditions__)
-                    base_snapshots.extend(
-                        base_contract_checker.__postcondition_snapshots__
+                    _extend_with_contracts_of_base(
+                        base_contract_checker=base_contract_checker,
+                        base_preconditions=base_preconditions,
+                        base_snapshots=base_snapshots,
+                        base_postconditions=base_postconditions,
                     )
-                    base_postconditions.extend(base_contract_checker.__postconditions__)
 
                 if (
                     base_contract_checker is None
@@ -352,11 +389,12 @@ def _decorate_namespace_property(
 
                 # Ignore functions which don't have preconditions or postconditions
                 if base_contract_checker is not None:
-                    base_preconditions.extend(base_contract_checker.__preconditions__)
-                    base_snapshots.extend(
-                        base_contract_checker.__postcondition_snapshots__
+                    _extend_with_contracts_of_base(
+                        base_contract_checker=base_contract_checker,
+                        base_preconditions=base_preconditions,
+                        base_snapshots=base_snapshots,
+                        base_postconditions=base_postconditions,
                     )
-                    base_postconditions.extend(base_contract_checker.__postconditions__)
 
                 if (
                     base_contract_checker is None
